@@ -1638,6 +1638,10 @@ func runT(f []string) string {
 
 func runCase(line string) string {
 	f := strings.Split(line, " ")
+	if len(f) >= 3 && f[0] == "E" && f[2] == "tbsc" {
+		res, _ := hx.Guard(deadline, func() string { return runTBSC(f) })
+		return f[1] + " " + res
+	}
 	if len(f) >= 3 && f[0] == "E" && f[2] == "tbs" {
 		res, _ := hx.Guard(deadline, func() string { return runTBS(f) })
 		return f[1] + " " + res
@@ -1804,6 +1808,8 @@ func gen(seed uint64, tier string) []string {
 		id++
 		if i%5 == 4 {
 			lines = append(lines, genTBS(r, id))
+		} else if i%5 == 3 {
+			lines = append(lines, genTBSC(r, id))
 		} else {
 			lines = append(lines, genE(r, id))
 		}
@@ -2304,4 +2310,142 @@ func runTBS(f []string) string {
 		return "err parse"
 	}
 	return "ok " + hx.Hex(p.TBSCertList.Raw)
+}
+
+// ------------------------------------------------------------------------------------------------
+// E tbsc cases: the TBSCertificate CreateCertificate assembles, byte for byte.
+//
+//	E <id> tbsc <serial> <alg> <issuer> <notBefore> <notAfter> <subject> <x> <y> <ku> <ekus> <unknown> <bc> <ski> <aki> <dns> <emails> <ips> <policies> <critical> <permitted>
+//	   serial decimal; alg, issuer, notBefore, notAfter, subject: hex of DER elements; x, y: hex of the subject public key
+//	   coordinates; ku decimal; ekus ints; unknown, policies dotted OIDs; bc = valid,isca,maxpathlen,zero; lists as elsewhere
+//	-> ok <hex of RawTBSCertificate> | err create | err parse | PANIC
+
+func genTBSC(r *hx.Rng, id int) string {
+	tmv := func() time.Time {
+		y := r.Pick([]int{1950, 1999, 2024, 2049, 2050, 2051, 9999})
+		return time.Date(y, time.Month(1+r.Intn(12)), 1+r.Intn(28), r.Intn(24), r.Intn(60), r.Intn(60), 0, time.UTC)
+	}
+	enc := func(t time.Time) string {
+		b, _ := asn1.Marshal(t)
+		return hx.Hex(b)
+	}
+	alg, _ := asn1.Marshal(pkix.AlgorithmIdentifier{Algorithm: asn1.ObjectIdentifier{1, 2, 156, 10197, 1, 501}})
+	nm := func(cn string) string {
+		n := pkix.Name{CommonName: cn, Organization: []string{"verif"}}
+		b, _ := asn1.Marshal(n.ToRDNSequence())
+		return hx.Hex(b)
+	}
+	d := new(big.Int).SetBytes(r.Bytes(31))
+	d.Add(d, big.NewInt(1))
+	x, y := sm2.P256Sm2().ScalarBaseMult(d.Bytes())
+	opt := func(p int) bool { return r.Intn(p) != 0 }
+	ku := 0
+	if opt(3) {
+		ku = 1 + r.Intn(511)
+	}
+	var ekus []int
+	unknown := "-"
+	if opt(2) {
+		for n := r.Intn(4); n > 0; n-- {
+			ekus = append(ekus, r.Intn(12))
+		}
+		if r.Intn(3) == 0 {
+			unknown = oidsStr([]asn1.ObjectIdentifier{{1, 2, 3, 4, 5 + r.Intn(100)}})
+		}
+	}
+	bc := fmt.Sprintf("%d,%d,%d,%d", r.Intn(2), r.Intn(2), r.Pick([]int{-1, 0, 0, 1, 2, 127, 128, 1 << 20}), r.Intn(2))
+	bytesOr := func(p int, n int) string {
+		if opt(p) {
+			return hx.Hex(r.Bytes(1 + r.Intn(n)))
+		}
+		return "-"
+	}
+	list := func(p int, ia5 bool) string {
+		if !opt(p) {
+			return "-"
+		}
+		var v [][]byte
+		for n := 1 + r.Intn(3); n > 0; n-- {
+			b := genBytesE(r, ia5)
+			if len(b) == 0 || len(b) > 300 {
+				b = []byte("a.example.com")
+			}
+			v = append(v, b)
+		}
+		return hx.HexList(v)
+	}
+	ips := "-"
+	if opt(2) {
+		var v [][]byte
+		for n := 1 + r.Intn(2); n > 0; n-- {
+			if r.Bool() {
+				v = append(v, r.Bytes(4))
+			} else if r.Bool() {
+				v = append(v, append([]byte{0, 0, 0, 0, 0, 0, 0, 0, 0, 0, 0xff, 0xff}, r.Bytes(4)...))
+			} else {
+				v = append(v, r.Bytes(16))
+			}
+		}
+		ips = hx.HexList(v)
+	}
+	pol := "-"
+	if opt(2) {
+		pol = oidsStr([]asn1.ObjectIdentifier{{2, 5, 29, 32, 0}, {1, 3, 6, 1, 4, 1, 1 + r.Intn(50000)}}[:1+r.Intn(2)])
+	}
+	return fmt.Sprintf("E %d tbsc %s %s %s %s %s %s %s %s %d %s %s %s %s %s %s %s %s %s %d %s", id, genSerial(r, 2).String(), hx.Hex(alg),
+		nm("issuer "+strconv.Itoa(r.Intn(3))), enc(tmv()), enc(tmv()), nm("subject "+strconv.Itoa(r.Intn(3))),
+		hx.Hex(x.Bytes()), hx.Hex(y.Bytes()), ku, hx.Ints(ekus), unknown, bc, bytesOr(2, 20), bytesOr(2, 20),
+		list(2, true), list(3, true), ips, pol, r.Intn(2), list(3, true))
+}
+
+func nameOfElem(h string) pkix.Name {
+	var rdn pkix.RDNSequence
+	if _, err := asn1.Unmarshal(hx.UnHex(h), &rdn); err != nil {
+		panic("bad name element in case line")
+	}
+	var n pkix.Name
+	n.FillFromRDNSequence(&rdn)
+	return n
+}
+
+func runTBSC(f []string) string {
+	if len(f) != 23 {
+		return "BADCASE"
+	}
+	serial, _ := new(big.Int).SetString(f[3], 10)
+	t := &x509.Certificate{SerialNumber: serial, Subject: nameOfElem(f[8]), NotBefore: timeOfElem(f[6]), NotAfter: timeOfElem(f[7]),
+		SignatureAlgorithm: x509.SM2WithSM3}
+	parent := &x509.Certificate{Subject: nameOfElem(f[5]), SubjectKeyId: hx.UnHex(f[16])}
+	if len(parent.SubjectKeyId) == 0 {
+		parent.SubjectKeyId = nil
+	}
+	pub := &sm2.PublicKey{Curve: sm2.P256Sm2(), X: new(big.Int).SetBytes(hx.UnHex(f[9])), Y: new(big.Int).SetBytes(hx.UnHex(f[10]))}
+	ku, _ := strconv.Atoi(f[11])
+	t.KeyUsage = x509.KeyUsage(ku)
+	for _, u := range hx.UnInts(f[12]) {
+		t.ExtKeyUsage = append(t.ExtKeyUsage, x509.ExtKeyUsage(u))
+	}
+	t.UnknownExtKeyUsage = unOIDs(f[13])
+	bc := hx.UnInts(f[14])
+	t.BasicConstraintsValid, t.IsCA, t.MaxPathLen, t.MaxPathLenZero = bc[0] == 1, bc[1] == 1, bc[2], bc[3] == 1
+	t.SubjectKeyId = hx.UnHex(f[15])
+	if len(t.SubjectKeyId) == 0 {
+		t.SubjectKeyId = nil
+	}
+	t.DNSNames, t.EmailAddresses = strsOf(hx.UnHexList(f[17])), strsOf(hx.UnHexList(f[18]))
+	for _, ip := range hx.UnHexList(f[19]) {
+		t.IPAddresses = append(t.IPAddresses, net.IP(ip))
+	}
+	t.PolicyIdentifiers = unOIDs(f[20])
+	t.PermittedDNSDomainsCritical = f[21] == "1"
+	t.PermittedDNSDomains = strsOf(hx.UnHexList(f[22]))
+	der, err := x509.CreateCertificate(t, parent, pub, W.sm2k[0])
+	if err != nil {
+		return "err create"
+	}
+	c, err := x509.ParseCertificate(der)
+	if err != nil {
+		return "err parse"
+	}
+	return "ok " + hx.Hex(c.RawTBSCertificate)
 }
